@@ -533,6 +533,10 @@ def rule_option_plumbing(ctx):
 
 
 def run(ctx):
+    # what the application configures is what the connection uses: options handed to setProtocolOptions reach the factory attribute of their name
+    from .common import rule_option_setters
+    rule_option_setters(ctx, "C16.6-configured-limits-reach-the-factory", [('WebSocketServerFactory', 'maxFramePayloadSize', 'num'), ('WebSocketServerFactory', 'maxMessagePayloadSize', 'num'), ('WebSocketServerFactory', 'autoFragmentSize', 'num'), ('WebSocketClientFactory', 'maxFramePayloadSize', 'num'), ('WebSocketClientFactory', 'maxMessagePayloadSize', 'num'), ('WebSocketClientFactory', 'autoFragmentSize', 'num')],
+                        "the configured payload limit is then not the one enforced")
     rule_option_plumbing(ctx)
     rule_message_start(ctx)
     rule_early_check(ctx)
